@@ -25,6 +25,10 @@ static std::string call_reader(const std::string& which, const std::string& path
     if (which == "read_gds") {
         ErrorCode err = ErrorCode::NoError;
         Library lib = read_gds(path.c_str(), 0, 0, NULL, &err);
+        {
+            Library l2 = read_gds(path.c_str(), 0, 0, NULL, NULL);  // caller without an error pointer
+            l2.free_all();
+        }
         if (is_error(err)) {
             st = "err";
             if (lib.cell_array.count != 0 || lib.name != NULL) st += "+nonempty";
@@ -35,6 +39,14 @@ static std::string call_reader(const std::string& which, const std::string& path
     } else if (which == "read_rawcells") {
         ErrorCode err = ErrorCode::NoError;
         Map<RawCell*> m = read_rawcells(path.c_str(), &err);
+        {
+            Map<RawCell*> m2 = read_rawcells(path.c_str(), NULL);  // caller without an error pointer
+            for (MapItem<RawCell*>* it = m2.next(NULL); it; it = m2.next(it)) {
+                it->value->clear();
+                free_allocation(it->value);
+            }
+            m2.clear();
+        }
         if (is_error(err)) {
             st = "err";
             if (m.count != 0) st += "+nonempty";
@@ -69,6 +81,9 @@ static std::string call_reader(const std::string& which, const std::string& path
     } else if (which == "gds_timestamp") {
         ErrorCode err = ErrorCode::NoError;
         tm t = gds_timestamp(path.c_str(), NULL, &err);
+        // the same call by a caller that does not ask for the error code: it must release what it opened all the same
+        // (the descriptor count below covers both calls)
+        (void)gds_timestamp(path.c_str(), NULL, NULL);
         if (is_error(err))
             st = "err";
         else
